@@ -45,10 +45,14 @@ func c18PoolInterp(t *testing.T, c c18Case) kit.Verdict {
 	v := c18NewV()
 	c18CaseClasses(v, c)
 	v.class(fmt.Sprintf("limit=%d", c.N))
-	if c.P == 0 {
+	if _, d := c18Settings(c, 0); d == 0 {
 		v.class("maxage-off")
+	} else if c.X != 0 {
+		v.class(fmt.Sprintf("maxage=%v", d))
 	}
-	maxAge := time.Duration(c.P) * c18ms
+	if c.D {
+		v.class("two-instances-with-different-settings")
+	}
 	var mu sync.Mutex
 	var pevs []c18PoolEvt
 	var bad []string
@@ -108,14 +112,18 @@ func c18PoolInterp(t *testing.T, c c18Case) kit.Verdict {
 			pevs = append(pevs, c18PoolEvt{M: m, Kind: "destroy", ID: r.id, At: at, Idle: at.T - r.lastPut})
 			mu.Unlock()
 			if plan(ndestroy.Add(1)).Key == 1 {
+				mu.Lock()
+				pevs = append(pevs, c18PoolEvt{M: m, Kind: "destroy-panic", ID: r.id, At: clk.now()})
+				mu.Unlock()
 				panic(c18Panic{"pool destroy"})
 			}
 		}
+		limit, maxAge := c18Settings(c, m)
 		var opts []syncx.PoolOption
-		if c.P > 0 {
+		if maxAge > 0 {
 			opts = append(opts, syncx.WithMaxAge(maxAge))
 		}
-		pools[m] = syncx.NewPool(c.N, create, destroy, opts...)
+		pools[m] = syncx.NewPool(limit, create, destroy, opts...)
 		}
 		return func(g, i int, op c18Op) {
 			pool := pools[op.M]
@@ -126,6 +134,7 @@ func c18PoolInterp(t *testing.T, c c18Case) kit.Verdict {
 			ev := c18Ev{G: g, I: i, Op: op, Sub: "get"}
 			var x interface{}
 			ev.Inv = clk.now()
+			log.ev(c18Ev{G: g, I: i, Op: op, Sub: "get-inv", Inv: ev.Inv})
 			pan, foreign := c18Try(func() { x = pool.Get() })
 			ev.Ret = clk.now()
 			if pan {
@@ -188,6 +197,42 @@ func c18PoolInterp(t *testing.T, c c18Case) kit.Verdict {
 			v.class("create-panicked")
 		}
 	}
+	if res.Hang && createPanics == 0 {
+		// A panicking destroy aborts the Get that was about to replace the aged
+		// resource: the count is given back but nobody wakes the OTHER waiters
+		// (no Put will follow). Waiters already blocked at that moment can stay
+		// blocked for ever on the unchanged tree; the statement is silent on
+		// liveness after callback panics, so that is tolerated - but only for Gets
+		// that were already pending when a destroy panicked. A Get invoked later
+		// finds the count given back and must not block for ever.
+		returned := map[string]bool{}
+		for _, ev := range full.evs {
+			if ev.Sub == "get" {
+				returned[fmt.Sprintf("%d/%d", ev.G, ev.I)] = true
+			}
+		}
+		stranded, other := 0, 0
+		for _, ev := range full.evs {
+			if ev.Sub != "get-inv" || returned[fmt.Sprintf("%d/%d", ev.G, ev.I)] {
+				continue
+			}
+			ok := false
+			for _, pe := range pevs {
+				if pe.Kind == "destroy-panic" && pe.M == ev.Op.M && pe.At.S > ev.Inv.S {
+					ok = true
+				}
+			}
+			if ok {
+				stranded++
+			} else {
+				other++
+			}
+		}
+		if stranded > 0 && other == 0 {
+			v.class("hang: waiters stranded by a destroy panic (unspecified, tolerated)")
+			res = kit.BubbleResult{}
+		}
+	}
 	if res.Hang && createPanics > 0 {
 		// Pool.Get counts the resource (created++) before it calls create and
 		// does not take the count back when create panics, so the slot is lost
@@ -200,6 +245,8 @@ func c18PoolInterp(t *testing.T, c c18Case) kit.Verdict {
 	for inst := 0; inst < c18Inst; inst++ {
 	// every pool is judged on its own history against its own limit
 	log := full.inst(inst)
+	cN, maxAge := c18Settings(c, inst)
+	on := maxAge > 0
 	var pevs []c18PoolEvt
 	for _, pe := range allPevs {
 		if pe.M == inst {
@@ -213,15 +260,18 @@ func c18PoolInterp(t *testing.T, c c18Case) kit.Verdict {
 		case "create":
 			live++
 			created++
-			if live > c.N {
-				v.failf("pool(limit %d): %d resources alive after creating resource %d (stamp %d)", c.N, live, pe.ID, pe.At.S)
+			if live > cN {
+				v.failf("pool(limit %d): %d resources alive after creating resource %d (stamp %d)", cN, live, pe.ID, pe.At.S)
 			}
 		case "destroy":
 			live--
 			v.class("destroyed-aged-resource")
-			if c.P == 0 {
+			if !on {
 				v.failf("pool without maximum age destroyed resource %d", pe.ID)
 			} else if pe.Idle < maxAge {
+				// (fixed finding pool-maxage-overflow, /repo 198580a: lastUsed+maxAge
+				// used to overflow int64 for "never expire" values; regression
+				// replay /verif/replays/C18/pool-pool-maxage-overflow.json)
 				v.failf("pool(maxAge %v) destroyed resource %d after only %v idle", maxAge, pe.ID, pe.Idle)
 			}
 			if pe.Idle == maxAge {
@@ -247,7 +297,7 @@ func c18PoolInterp(t *testing.T, c c18Case) kit.Verdict {
 		if ev.Sub != "get" {
 			continue
 		}
-		name := fmt.Sprintf("pool(limit %d, maxAge %v) Get g%d#%d", c.N, maxAge, ev.G, ev.I)
+		name := fmt.Sprintf("pool(limit %d, maxAge %v) Get g%d#%d", cN, maxAge, ev.G, ev.I)
 		if ev.Foreign != "" {
 			v.failf("%s panicked with a value no callback raised: %s", name, ev.Foreign)
 			continue
@@ -272,13 +322,13 @@ func c18PoolInterp(t *testing.T, c c18Case) kit.Verdict {
 		} else {
 			v.class("reused-resource")
 			idle := time.Duration(ev.Res) * c18ms
-			if c.P > 0 && idle > maxAge {
+			if on && idle > maxAge {
 				v.failf("%s was handed resource %d which had been idle %v, beyond the maximum age: it must be destroyed, not reused", name, ev.Val, idle)
 			}
-			if c.P > 0 && idle == maxAge {
+			if on && idle == maxAge {
 				v.class("idle==maxAge")
 			}
-			if c.P > 0 && idle > 0 && idle < maxAge {
+			if on && idle > 0 && idle < maxAge {
 				v.class("reused-young-resource")
 			}
 		}
@@ -303,6 +353,17 @@ func c18PoolGen(rt *rapid.T) c18Case {
 	c := c18Case{
 		N: rapid.SampledFrom([]int{1, 1, 2, 2, 3}).Draw(rt, "limit"),
 		P: rapid.SampledFrom([]int{0, 1, 2, 3, 3, 4}).Draw(rt, "maxage"),
+	}
+	if rapid.IntRange(0, 3).Draw(rt, "scaleFreeMaxAge") == 0 {
+		c.X = rapid.IntRange(1, c18DurCodes).Draw(rt, "maxageCode")
+	}
+	if rapid.IntRange(0, 2).Draw(rt, "differentSettings") == 0 {
+		c.D = true
+		c.N2 = rapid.IntRange(1, 3).Draw(rt, "limit2")
+		c.P2 = rapid.SampledFrom([]int{0, 1, 2, 3, 4}).Draw(rt, "maxage2")
+		if rapid.IntRange(0, 3).Draw(rt, "scaleFreeMaxAge2") == 0 {
+			c.X2 = rapid.IntRange(1, c18DurCodes).Draw(rt, "maxageCode2")
+		}
 	}
 	c.Gs = c18GenGs(rt, 5, func(rt *rapid.T, burst bool) c18Op {
 		if rapid.IntRange(0, 11).Draw(rt, "putnil") == 0 {
